@@ -23,16 +23,19 @@ ASSUMPTIONS = ['perpendicular cell widths exceed twice the largest cutoff used (
 STUBS = []
 OPTS = {'timeout_ms': 30000}
 
-PAIRS = [('C', 'C'), ('C', 'H'), ('H', 'C'), ('Zn', 'O'), ('O', 'Zn'), ('Fe', 'Fe'), ('Zr', 'Cl'), ('Na', 'H'), ('Cu', 'N'), ('Li', 'Li'), ('S', 'Se'), ('K', 'O')]
+CELLS = dict(CELLS)
+CELLS['narrow-tilted'] = [[3.6, 0, 0], [1.8, 3.6, 0], [0, 0, 12.]]      # perpendicular widths between 1x and 2x the C-C cutoff
+CELLS['narrow-tilted2'] = [[4.2, 0, 0], [-2.0, 4.0, 0], [1.0, -1.5, 9.]]
+PAIRS = [('Cu', 'Cl'), ('Ni', 'S'), ('Zn', 'Br'), ('C', 'C'), ('C', 'H'), ('H', 'C'), ('Zn', 'O'), ('O', 'Zn'), ('Fe', 'Fe'), ('Zr', 'Cl'), ('Na', 'H'), ('Cu', 'N'), ('Li', 'Li'), ('S', 'Se'), ('K', 'O')]
 DIRS = [(1, 0, 0), (0, 1, 0), (0, 0, 1), (1, 1, 0), (1, 0, 1), (0, 1, 1), (1, -1, 0), (1, 0, -1), (0, 1, -1), (1, 1, 1), (1, -1, 1), (1, 1, -1), (-1, 1, 1)]
 
 
-_R = {'C': 0.76, 'H': 0.31, 'Zn': 1.22, 'O': 0.66, 'Fe': 1.32, 'Zr': 1.75, 'Cl': 1.02, 'Na': 1.66, 'Cu': 1.32, 'N': 0.71, 'Li': 1.28, 'S': 1.05,
+_R = {'Br': 1.2, 'Ni': 1.24, 'C': 0.76, 'H': 0.31, 'Zn': 1.22, 'O': 0.66, 'Fe': 1.32, 'Zr': 1.75, 'Cl': 1.02, 'Na': 1.66, 'Cu': 1.32, 'N': 0.71, 'Li': 1.28, 'S': 1.05,
       'Se': 1.2, 'K': 2.03}
 
 
 def _cut(pair):
-    nm = ('H', 'C', 'N', 'O', 'Cl', 'S', 'Se')
+    nm = ('H', 'C', 'N', 'O', 'Cl', 'S', 'Se', 'Br')
     return _R[pair[0]] + _R[pair[1]] + (0.45 if (pair[0] in nm or pair[1] in nm) else 0.0)
 
 
@@ -52,6 +55,11 @@ def instances(tier, seed):
         out.append(dict(name=f"bond:{pair[0]}-{pair[1]}:dir{di}:{cell}:axis{ax}", family='bond', pair=pair, dir=di, cell=cell, axes=[ax], other=other,
                         third=(k % 3 == 0), swap=(k % 5 == 1), cost=10))
         k += 1
+    # cells whose perpendicular widths lie between one and two cutoffs (inside the property's domain): the nearest image is not always
+    # the planted one, the oracle takes the minimum over the 27 images
+    for j, (di, ax) in enumerate([(0, 0), (3, 1), (6, 0), (1, 1), (9, 2), (7, 1)][:6 if tier == 'quick' else 6]):
+        out.append(dict(name=f"bond:C-C:dir{di}:narrow-tilted{j % 2}:axis{ax}", family='bond', pair=('C', 'C') if j % 3 else ('C', 'H'), dir=di,
+                        cell='narrow-tilted' if j % 2 == 0 else 'narrow-tilted2', axes=[ax], other=(0.1, 0.6, 0.3), third=False, dmax=3.4, cost=20))
     for j, pair in enumerate(PAIRS[:6 if tier == 'quick' else 12]):
         out.append(dict(name=f"bond:{pair[0]}-{pair[1]}:dir{j}:nocell", family='bond', pair=pair, dir=j, cell=None, axes=[], other=(0, 0, 0), third=(j % 2 == 0), cost=2))
     if tier == 'thorough':
@@ -78,7 +86,7 @@ def body(ctx, p):
     cut = DB.COVALENT_RADII[e1] + DB.COVALENT_RADII[e2] + (0.45 if (e1 in DB.NON_METALS or e2 in DB.NON_METALS) else 0.0)
     u = np.array(DIRS[p['dir']], dtype=float)
     u = u / np.linalg.norm(u)
-    d = ctx.real('d', 0.2, cut + 0.6)
+    d = ctx.real('d', 0.2, p.get('dmax', cut + 0.6))
     cell = None if p['cell'] is None else np.array(CELLS[p['cell']], dtype=float)
     base = np.array([1.3, 1.7, 2.1])
     third = base + (np.array([0.5, 0.5, 0.5]).dot(cell) if cell is not None else np.array([9.0, 7.0, 8.0]))
@@ -119,8 +127,19 @@ def body(ctx, p):
     pair = (min(ia, ib), max(ia, ib))
     eps = 1e-9
     with core.nosimplify():
-        ctx.require('pair clearly closer than the cutoff is reported', IMPLIES(d <= cut - eps, pair in got), detail=dict(cut=cut))
-        ctx.require('pair clearly farther than the cutoff is not reported', IMPLIES(d >= cut + eps, pair not in got), detail=dict(cut=cut))
+        if cell is None:
+            d2s = [d * d]
+        else:
+            # squared distance of B to A over the 27 periodic images (the property's definition), as polynomials in d
+            d2s = []
+            for i_ in (-1, 0, 1):
+                for j_ in (-1, 0, 1):
+                    for k_ in (-1, 0, 1):
+                        off = i_ * cell[0] + j_ * cell[1] + k_ * cell[2]
+                        d2s.append(core.SUM([(d * float(u[c]) + float(off[c])) * (d * float(u[c]) + float(off[c])) for c in range(3)]))
+        lo2, hi2 = (cut - eps) ** 2, (cut + eps) ** 2
+        ctx.require('pair whose smallest image distance is clearly below the cutoff is reported', IMPLIES(OR(*[x <= lo2 for x in d2s]), pair in got), detail=dict(cut=cut))
+        ctx.require('pair whose smallest image distance is clearly above the cutoff is not reported', IMPLIES(AND(*[x >= hi2 for x in d2s]), pair not in got), detail=dict(cut=cut))
     ctx.require('each pair once, as i<j', len(set(got)) == len(got) and all(i < j for i, j in got))
     ctx.require('the bystander atom forms no bond', all(set(b) == set(pair) for b in got), detail=dict(got=got))
 
